@@ -88,7 +88,16 @@ func walkKeys(t reflect.Type, tagName string, prefix []string, out *[]KeyPath, d
 		}
 		ft := f.Type
 		if inline {
-			walkKeys(ft, tagName, prefix, out, depth+1)
+			if ft.Kind() == reflect.Map { // an inline map: ANY key is taken at this level (a key path of its own: "<any>")
+				*out = append(*out, KeyPath{Segs: append(append([]string{}, prefix...), "<any>"), Kind: "string", Type: ft.Elem()})
+				continue
+			}
+			if ft.Kind() == reflect.Ptr {
+				ft = ft.Elem()
+			}
+			if ft.Kind() == reflect.Struct {
+				walkKeys(ft, tagName, prefix, out, depth+1)
+			}
 			continue
 		}
 		segs := append(append([]string{}, prefix...), name)
